@@ -197,21 +197,22 @@ def sortStrings (xs : List String) : List String := xs.foldr insertSorted []
 def showErr : Err → String
   | .conflict => "conflict" | .constraint => "constraint" | .notfound => "notfound" | .type => "type" | .other => "other"
 
-def showRows (rs : List (List Val)) : String :=
-  "[" ++ joinWith ";" (sortStrings (rs.map (fun r => joinWith "," (r.map showVal)))) ++ "]"
+def showRowsWith (sort : Bool) (rs : List (List Val)) : String :=
+  let xs := rs.map (fun r => joinWith "," (r.map showVal))
+  "[" ++ joinWith ";" (if sort then sortStrings xs else xs) ++ "]"
 
-def showS : SOut → String
+def showS (sort : Bool) : SOut → String
   | .okN n => s!"ok{n}"
-  | .rows rs => showRows rs
+  | .rows rs => showRowsWith sort rs
   | .err e => showErr e
 
-def showOut : Out → String
+def showOut (sort : Bool) : Out → String
   | .ok => "ok"
-  | .stmt o => showS o
+  | .stmt o => showS sort o
   | .conflict => "conflict"
   | .noSession => "nosession"
   | .batchErr e => "batch-" ++ showErr e
-  | .batch outs => "batch(" ++ joinWith " " (outs.map showS) ++ ")"
+  | .batch outs => "batch(" ++ joinWith " " (outs.map (showS sort)) ++ ")"
   | .none => "-"
 
 def hasDup : List String → Bool
@@ -227,7 +228,7 @@ def finalOps (st : Setup) : List Op := st.tables.map (fun t => Op.auto (.sel t.n
 def anyErr (outs : List Out) : Bool :=
   outs.any (fun o => match o with | .stmt (.err _) => true | .conflict => true | _ => false)
 
-def render (st : Setup) (outs : List Out) : String :=
+def render (sort : Bool) (st : Setup) (outs : List Out) : String :=
   let n0 := (setupOps st).length
   let pre := outs.take n0
   if anyErr pre then "bad-setup"
@@ -236,8 +237,8 @@ def render (st : Setup) (outs : List Out) : String :=
     let nf := st.tables.length
     let mid := rest.take (rest.length - nf)
     let fin := rest.drop (rest.length - nf)
-    let finS := (st.tables.zip fin).map (fun (t, o) => t.name ++ "=" ++ showOut o)
-    s!"{joinWith " " (mid.map showOut)} | {joinWith " " finS}"
+    let finS := (st.tables.zip fin).map (fun (t, o) => t.name ++ "=" ++ showOut sort o)
+    s!"{joinWith " " (mid.map (showOut sort))} | {joinWith " " finS}"
 
 def parseDefects (flags : List String) : Defects :=
   { updateKeepsInserterXmin := flags.contains "updateKeepsInserterXmin",
@@ -259,9 +260,11 @@ def runLine (flags : List String) (line : String) : String :=
     if hasDup (st.tables.map (·.name)) then "bad-setup"
     else
       let all := setupOps st ++ ops ++ finalOps st
-      if flags.contains "abs" then render st (Spec.run st.tables all).2
+      -- pseudo-flag `nosort`: rows in the model's own (row-id) order, for comparing the two machines list by list
+      let sort := !flags.contains "nosort"
+      if flags.contains "abs" then render sort st (Spec.run st.tables all).2
       else
-        let go (fl : List String) : String := render st (run (parseDefects fl) st.tables all).2
+        let go (fl : List String) : String := render sort st (run (parseDefects fl) st.tables all).2
         let out := go flags
         -- non-gating diagnostics: the defect flags this answer depends on (switching one off changes it)
         let fired := (flags.filter defectNames.contains).filter (fun f => go (flags.filter (· != f)) != out)
